@@ -17,6 +17,7 @@ type chanState struct {
 	pend     []uint64 // seq numbers of values in buf (rendezvous bookkeeping)
 	closed   bool
 	recvWait int
+	keep     any // the channel itself: while the table refers to its address the GC must not reuse it
 }
 
 func (s *Sim) chanOf(ch any) *chanState {
@@ -27,7 +28,7 @@ func (s *Sim) chanOf(ch any) *chanState {
 	p := v.Pointer()
 	st := s.chans[p]
 	if st == nil {
-		st = &chanState{capacity: v.Cap(), taken: map[uint64]bool{}}
+		st = &chanState{capacity: v.Cap(), taken: map[uint64]bool{}, keep: ch}
 		s.chans[p] = st
 	}
 	return st
